@@ -109,7 +109,8 @@ def chain_runs(args):
     from harness import build  # noqa
     from pygom import SimulateOde, Transition, Event
     from pygom.model import ode_utils
-    n0, a, b, tobs, n, seed = args
+    n0, a, b, tobs, n, seed = args[:6]
+    own_generator = len(args) > 6 and args[6]
     m = SimulateOde(state=["A", "B", "C"], param=["a", "b"],
                     event=[Event(rate="a*A", transition_list=[Transition(origin="A", destination="B", transition_type="T")]),
                            Event(rate="b*B", transition_list=[Transition(origin="B", destination="C", transition_type="T")])])
@@ -117,7 +118,13 @@ def chain_runs(args):
     m.parameters = [float(a), float(b)]
     m.initial_values = (np.array([float(n0), 0.0, 0.0]), np.float64(0))
     np.random.seed(seed)
-    X, J, T = m.solve_stochast(float(tobs) * 4, n, exact=True, full_output=True)
+    if own_generator:
+        # the call solve_stochast(..., parallel=True) makes for each run (executed here one after the other): every
+        # draw comes from a generator of its own, seeded by the operating system
+        runs = [m._jump(float(tobs) * 4, exact=True, full_output=True, seed=True) for _ in range(n)]
+        X, T = [r[0] for r in runs], [r[2] for r in runs]
+    else:
+        X, J, T = m.solve_stochast(float(tobs) * 4, n, exact=True, full_output=True)
     out = []
     for x, t in zip(X, T):
         k = int(np.searchsorted(np.asarray(t, float), float(tobs), side="right")) - 1
@@ -137,7 +144,7 @@ def law_tests(rep, tier, seed):
          (12, Fraction(1), Fraction(1), Fraction(3, 2)), (5, Fraction(1, 4), Fraction(2), Fraction(3))]
     n = 2400 if quick else 20000
     ninst = len(sir_inst) + len(chain_inst)
-    cells_total = sum(s0 + 1 for s0, *_ in sir_inst) + sum(3 * (n0 + 1) for n0, *_ in chain_inst)
+    cells_total = sum(s0 + 1 for s0, *_ in sir_inst) + sum(3 * (n0 + 1) for n0, *_ in chain_inst) + 3 * (chain_inst[0][0] + 1)
     alpha_cell = ALPHA / cells_total
     rep.cov["law_test"] = {"runs_per_instance": n, "instances": ninst, "cells": cells_total, "alpha_per_cell": alpha_cell}
     nchunks = 16
@@ -167,13 +174,14 @@ def law_tests(rep, tier, seed):
         rep.sample({"law_test": "SIR final size", "instance": [s0, i0, str(beta), str(gamma), npop],
                     "exact_law": {str(k): str(v) for k, v in sorted(law.items())[:4]}, "counts": counts}, limit=6)
     from scipy.stats import binom
-    for (n0, a, b, tobs) in chain_inst:
+    chain_all = [(inst, False) for inst in chain_inst] + [(chain_inst[0], True)]
+    for ((n0, a, b, tobs), own) in chain_all:
         # occupancy probabilities of one individual at time t (closed form, a != b by construction)
         af, bf, tf = float(a), float(b), float(tobs)
         p1 = np.exp(-af * tf)
         p2 = af / (bf - af) * (np.exp(-af * tf) - np.exp(-bf * tf))
         p3 = 1 - p1 - p2
-        jobs = [(n0, a, b, tobs, n // nchunks, (seed + 131 * k) % 2 ** 31) for k in range(nchunks)]
+        jobs = [(n0, a, b, tobs, n // nchunks, (seed + 131 * k) % 2 ** 31, own) for k in range(nchunks)]
         rows = [r for chunk in mc.pool_map(chain_runs, jobs) for r in chunk]
         ntot = len(rows)
         bad = None
@@ -191,9 +199,11 @@ def law_tests(rep, tier, seed):
         if bad:
             rep.violation("occupancy law of the linear chain (N0=%d,a=%s,b=%s,t=%s): compartment %d value %d has %d of %d "
                           "runs, exact probability %.5f, region [%d, %d]" % ((n0, a, b, tobs) + bad[:3] + (ntot,) + bad[3:]),
-                          {"instance": [n0, str(a), str(b), str(tobs)]}, key="law|chain|cell")
+                          {"instance": [n0, str(a), str(b), str(tobs)], "own_generator_per_draw": own},
+                          key="law|chain|cell" + ("|own-generator" if own else ""))
         rep.count(ntot)
-        rep.sample({"law_test": "linear chain occupancy", "instance": [n0, str(a), str(b), str(tobs)],
+        rep.sample({"law_test": "linear chain occupancy" + (" (one generator per draw, as in the parallel route)" if own else ""),
+                    "instance": [n0, str(a), str(b), str(tobs)],
                     "p": [p1, p2, p3], "mean_observed": [float(np.mean([r[j] for r in rows])) for j in range(3)]}, limit=6)
 
 
